@@ -7,3 +7,24 @@ CertTac.vos CertTac.vok CertTac.required_vos: CertTac.v PyPrelude.vos
 Analysis.vo Analysis.glob Analysis.v.beautified Analysis.required_vo: Analysis.v PyPrelude.vo
 Analysis.vio: Analysis.v PyPrelude.vio
 Analysis.vos Analysis.vok Analysis.required_vos: Analysis.v PyPrelude.vos
+MinPrinciple.vo MinPrinciple.glob MinPrinciple.v.beautified MinPrinciple.required_vo: MinPrinciple.v 
+MinPrinciple.vio: MinPrinciple.v 
+MinPrinciple.vos MinPrinciple.vok MinPrinciple.required_vos: MinPrinciple.v 
+NumSig.vo NumSig.glob NumSig.v.beautified NumSig.required_vo: NumSig.v 
+NumSig.vio: NumSig.v 
+NumSig.vos NumSig.vok NumSig.required_vos: NumSig.v 
+Tridiag.vo Tridiag.glob Tridiag.v.beautified Tridiag.required_vo: Tridiag.v NumSig.vo MinPrinciple.vo
+Tridiag.vio: Tridiag.v NumSig.vio MinPrinciple.vio
+Tridiag.vos Tridiag.vok Tridiag.required_vos: Tridiag.v NumSig.vos MinPrinciple.vos
+Interp.vo Interp.glob Interp.v.beautified Interp.required_vo: Interp.v NumSig.vo
+Interp.vio: Interp.v NumSig.vio
+Interp.vos Interp.vok Interp.required_vos: Interp.v NumSig.vos
+Reservoir.vo Reservoir.glob Reservoir.v.beautified Reservoir.required_vo: Reservoir.v NumSig.vo Tridiag.vo Interp.vo
+Reservoir.vio: Reservoir.v NumSig.vio Tridiag.vio Interp.vio
+Reservoir.vos Reservoir.vok Reservoir.required_vos: Reservoir.v NumSig.vos Tridiag.vos Interp.vos
+FloatCmp.vo FloatCmp.glob FloatCmp.v.beautified FloatCmp.required_vo: FloatCmp.v NumSig.vo
+FloatCmp.vio: FloatCmp.v NumSig.vio
+FloatCmp.vos FloatCmp.vok FloatCmp.required_vos: FloatCmp.v NumSig.vos
+ReservoirThms.vo ReservoirThms.glob ReservoirThms.v.beautified ReservoirThms.required_vo: ReservoirThms.v NumSig.vo MinPrinciple.vo Tridiag.vo Interp.vo Reservoir.vo
+ReservoirThms.vio: ReservoirThms.v NumSig.vio MinPrinciple.vio Tridiag.vio Interp.vio Reservoir.vio
+ReservoirThms.vos ReservoirThms.vok ReservoirThms.required_vos: ReservoirThms.v NumSig.vos MinPrinciple.vos Tridiag.vos Interp.vos Reservoir.vos
